@@ -106,7 +106,7 @@ theorem resign_same {c : Codec} {z : Bytes} {ps : Parts} {r : Signed} (H : SignO
     (hold : c.blockMap ps.blockmap.plain = some (r.bm.map fun f => (f.name, f.blocks.map (·.2)))) :
     ∃ r', sign c r.out ps = .ok r' ∧ r'.out = r.out ∧ r'.streams = r.streams := by
   obtain ⟨g, d, r1, hg, hasm, hpass, hpay, hpos, hP, hfiles, hraw, hview, hd5f, hd5l, hd4f, hd4l, hE1, hE2, hout, hstr,
-      hfresh, f0, tl, t, htl, hpos0, ht0⟩ := sign_setup H.sign H.small H.sigOff
+      hfresh, f0, tl, t, htl, hpos0, ht0⟩ := sign_setup H.sign
   have hsigc : ps.signature.compd.length < 2 ^ 64 := by
     have h1 := congrArg List.length hout
     have h2 := congrArg List.length hE2
